@@ -146,8 +146,8 @@ CLAIMS["C10"] = {
     "technique": "Lean 4 theorems over the endpoint model + step-exact correspondence incl. shutdown-flag stimuli and lifecycle world",
 }
 CLAIMS["C11"] = {
-    "text": "Theorem C11_select_eq_spec / C11_iff: for every pair of revision lists the client's selection loop picks exactly the highest revision both support, and fails iff "
-            "there is none; settings/no-settings and legacy peers as the endpoint code does it (Negotiate.lean); regenerated facts tie supportedRevisions, the settings stream id "
+    "text": "Theorem C11_select_eq_spec / C11_iff: for every pair of revision lists the client's selection loop picks exactly the highest revision both support (C11_select_sound), and fails iff "
+            "there is none (C11_select_none_iff); settings/no-settings and legacy peers as the endpoint code does it (Negotiate.lean); regenerated facts tie supportedRevisions, the settings stream id "
             "and the negotiate header to the source. " + _CLI + " incl. malformed / empty / duplicate revision lists, and both option values on both ends. The header wiring on the public API is "
             "covered by the negotiate world: the library as forward caller, reverse server, forward handler and reverse handler against hand-written current and legacy peers over real grpc-go. The serving roles of the negotiate world report the revision list inside their settings frame; regenerated wiring fact: the revision-zero constructor builds the window-less sender (Proofs.Facts.context_wiring).",
     "design_ref": "DESIGN.md A2 (C11), A4 (D6)",
